@@ -57,26 +57,27 @@ Theorem C10_no_credentials_refused : forall cmp st rq,
 Proof. exact no_credentials_refused. Qed.
 Print Assumptions C10_no_credentials_refused.
 
-(* clause 2, class of every refusal.  Full statement of the property text:
-     forall cmp st rq e, authenticate cmp st rq = AErr e -> e = EInvalidClient \/ e = EInvalidRequest.
-   It is FALSE of the faithful model (C10_refusal_class_refuted); proved with the two assertion
-   shapes excluded: a replayed jti (answered jti_known, property C15) and a signed assertion whose
-   time claims are unacceptable (answered with a plain error, rendered "error"/500). *)
-Theorem C10_refusal_class_except_assertion_time_and_jti : forall cmp st rq e,
+(* clause 2, class of every refusal: "every other presentation (wrong, empty, another client's
+   secret, unknown client, disallowed method, malformed header) is rejected as invalid_client or
+   invalid_request".  Holds for every refused request that carries no client assertion, and for
+   every refused client assertion that is not a replay of a jti the store already knows (the code
+   answers those jti_known; the replay memory is the subject of property C15, see DESIGN 6.0).
+   Since commit 37f391e this includes assertions with unacceptable time claims (formerly answered
+   with a plain error; the monitor keeps the tag assertion_time_claims_rejected_as_server_error). *)
+Theorem C10_refusal_class : forall cmp st rq e,
+  authenticate cmp st rq = AErr e ->
+  (r_atype rq <> jwt_bearer_type \/ as_jti_known (r_as rq) = false) ->
+  e = EInvalidClient \/ e = EInvalidRequest.
+Proof. exact refusal_class. Qed.
+Print Assumptions C10_refusal_class.
+
+(* the same without side condition: the only third answer is jti_known for a known jti *)
+Theorem C10_refusal_class_or_jti_replay : forall cmp st rq e,
   authenticate cmp st rq = AErr e ->
   e = EInvalidClient \/ e = EInvalidRequest \/
-  (e = EJtiKnown /\ r_atype rq = jwt_bearer_type /\ as_jti_known (r_as rq) = true) \/
-  (e = EOther "error" /\ r_atype rq = jwt_bearer_type /\ r_ahas rq = true /\
-   as_parse (r_as rq) = true /\ as_time_ok (r_as rq) = false).
+  (e = EJtiKnown /\ r_atype rq = jwt_bearer_type /\ as_jti_known (r_as rq) = true).
 Proof. exact authenticate_err_class. Qed.
-Print Assumptions C10_refusal_class_except_assertion_time_and_jti.
-
-Theorem C10_refusal_class_refuted :
-  exists cmp st rq e,
-    authenticate cmp st rq = AErr e /\ e <> EInvalidClient /\ e <> EInvalidRequest /\
-    as_jti_known (r_as rq) = false.
-Proof. exact refusal_class_refuted. Qed.
-Print Assumptions C10_refusal_class_refuted.
+Print Assumptions C10_refusal_class_or_jti_replay.
 
 (* clause 2 at the endpoints: when authentication fails, the endpoint returns the error before
    any handler (hence before any storage function) is called and acts for nobody.  Token endpoint:
@@ -153,32 +154,27 @@ Theorem C10_device_acts_as_authenticated : forall cmp st rq,
 Proof. exact device_acts_as_authenticated. Qed.
 Print Assumptions C10_device_acts_as_authenticated.
 
-(* PAR.  Full statement of the clause:
-     forall cmp st rq u, let o := par_endpoint cmp st rq u in ob_res o = "" ->
-       exists c, authenticate cmp st rq = AOk c /\ ob_client o = c_id c.
-   FALSE of the faithful model (C10_par_client_binding_refuted): the pushed request is built for
-   the client named by the body's client_id, which is never compared with the authenticated client.
-   Proved under the exclusion "the body carries no client_id or the authenticated client's id". *)
-Theorem C10_par_acts_as_authenticated_partial : forall cmp st rq u,
+(* PAR (full strength since commit 59b9417): an accepted push was authenticated and is processed
+   in the name of the authenticated client; a body client_id naming another registered client is
+   refused with invalid_request.  The monitor keeps the tag
+   par_client_id_not_bound_to_authenticated_client for the former behaviour. *)
+Theorem C10_par_acts_as_authenticated : forall cmp st rq u,
   let o := par_endpoint cmp st rq u in
   ob_res o = "" ->
-  exists c, authenticate cmp st rq = AOk c /\
-            ((r_fid rq = "" \/ r_fid rq = c_id c) -> ob_client o = c_id c).
-Proof. exact par_acts_as_authenticated_partial. Qed.
-Print Assumptions C10_par_acts_as_authenticated_partial.
+  exists c, authenticate cmp st rq = AOk c /\ ob_client o = c_id c.
+Proof. exact par_acts_as_authenticated. Qed.
+Print Assumptions C10_par_acts_as_authenticated.
 
-Theorem C10_par_client_binding_refuted :
-  exists cmp st rq t o,
-    authenticate cmp st rq = AOk t /\
-    lookup st (c_id o) = Some o /\ c_public o = false /\ c_id o <> c_id t /\
-    ~ (by_secret cmp st rq o \/ by_assertion st rq o) /\
-    par_endpoint cmp st rq false = Obs "" (c_id o) [].
-Proof. exact par_client_binding_refuted. Qed.
-Print Assumptions C10_par_client_binding_refuted.
+Theorem C10_par_other_client_refused : forall cmp st rq c c',
+  authenticate cmp st rq = AOk c -> r_fid rq <> "" -> lookup st (r_fid rq) = Some c' ->
+  c_id c' <> c_id c ->
+  par_endpoint cmp st rq false = Obs "invalid_request" "" [].
+Proof. exact par_other_client_refused. Qed.
+Print Assumptions C10_par_other_client_refused.
 
 (* the executable specification evaluated on the implementation's observations names exactly the
-   client the model authenticates, and the monitor is silent on the model's own observation on
-   every input, except for the two recorded shapes (each with its own tag) *)
+   client the model authenticates, and the monitor never alarms on the model's own observation,
+   on any input *)
 Theorem C10_spec_who_is_model : forall cmp st rq,
   spec_who cmp st rq = client_of (authenticate cmp st rq).
 Proof. exact spec_who_is_model. Qed.
@@ -188,8 +184,6 @@ Theorem C10_monitor_accepts_model : forall cmp cf st ep rq houts changed final,
   table_ok (cf_handlers cf) = true -> no_empty_id st ->
   let o := run_endpoint cmp cf st ep rq houts in
   (ob_res o <> "" -> (ob_calls o = [] \/ is_cc_grant ep = true) -> changed = false) ->
-  monitor cmp cf st ep rq o changed final = None \/
-  monitor cmp cf st ep rq o changed final = Some par_tag \/
-  monitor cmp cf st ep rq o changed final = Some time_tag.
+  monitor cmp cf st ep rq o changed final = None.
 Proof. exact monitor_accepts_model. Qed.
 Print Assumptions C10_monitor_accepts_model.
